@@ -966,6 +966,8 @@ Section PRev.
       { replace (ip s') with (p1 + Z.of_nat (length lits) + 1 + 1 + (Z.of_nat (length r3) - Z.of_nat (length r4))) by lia.
         exact Hs5. }
       remember (Z.min (ml + 4) (oend - (op s + Z.of_nat (length lits)))) as n eqn:En.
+      clear Hs Hb Hsr Hbr Hs1 Hb1 Hs2 Hb2 Hs3 Hs4 Hb3 Hb4 Hs5 O Hav Hrl1 Hrl2 Htk Happ.
+      unfold byte in *.
       destruct (Z.eq_dec n (ml + 4)) as [Hcomplete|Hcut].
       + (* the sequence was completed *)
         rewrite Hcomplete in O'. replace (Z.to_nat (ml + 4 - (ml + 4))) with 0%nat in O' by lia. cbn [skipn] in O'.
